@@ -28,8 +28,8 @@ theorem sound_core : Gen.TLP.sem.soundCoreB = true := by decide +kernel
 
 /-- C01 for this logic: a closed tableau reached by any legal derivation has no countermodel. -/
 theorem c01_valid_sound (arg : Argument) (t : Tableau)
-    (hd : Deriv Gen.TLP.sem.soundPart.noQuantPart (trunk Gen.TLP.sem arg) t) (hclosed : t.allClosed = true)
+    (hd : Deriv Gen.TLP.sem.soundPart (trunk Gen.TLP.sem arg) t) (hclosed : t.allClosed = true)
     (M : Struct) (hM : M.Interp Gen.TLP.sem) (e : Env M.D) (w0 : M.W) : ¬ Countermodel Gen.TLP.sem M e w0 arg :=
-  Props.C01.C01_valid_sound_partial Gen.TLP.sem sound_core arg t hd hclosed M hM e w0
+  Props.C01.C01_valid_sound Gen.TLP.sem sound_core arg t hd hclosed M hM e w0
 
 end Ptx.Gen.Obl.TLP
